@@ -154,7 +154,21 @@ fn families(id: &str, tier: Tier) -> Vec<BFamily<'static>> {
 /// histories, and keeps the discrepancies the judge attributes to `own` (DESIGN 4.2: a discrepancy can belong to several
 /// statements).
 pub fn loop_half(ctx: &Ctx, own: &str) -> (Vec<Violation>, Value, Option<String>) {
-  let fams: Vec<BFamily<'static>> = families("C12", ctx.tier).into_iter().filter(|f| f.name.starts_with("chord layout") || f.name.starts_with("repeat layout over {B,LEFTCTRL} with up to 2") || f.name.contains("one per wake-up, up to 2 tablet events") && !f.name.starts_with("verbose")).collect();
+  let fams: Vec<BFamily<'static>> = if matches!(own, "C06" | "C19") {
+    families("C12", ctx.tier).into_iter().filter(|f| f.name.starts_with("chord layout") || f.name.starts_with("repeat layout over {B,LEFTCTRL} with up to 2") || f.name.contains("one per wake-up, up to 2 tablet events") && !f.name.starts_with("verbose")).collect()
+  } else {
+    // C01, C02, C05: the plain, chord, no-repeat and high-code families of C10 and its bursts (no tablet events)
+    let mut v: Vec<BFamily<'static>> = families("C10", ctx.tier).into_iter().filter(|f| f.cfg.max_tablet == 0 && !f.cfg.verbose && f.cfg.ticks == 0).collect();
+    // one notification of L events whose LAST event is the press of an uninvolved key (F1), for L around every power of two:
+    // whatever a loop does to the tail of a large notification, it shows on a key that no mapping mentions
+    for l in [2usize, 3, 4, 5, 8, 9, 15, 16, 17, 31, 32, 33, 63, 64, 65, 127, 128, 129, 255, 256, 257] {
+      let mut c = cfg(&[KeyCode::A], 0, 0, 0, 0, 30);
+      c.script = (0..l - 1).map(|i| if i % 2 == 0 { crate::keys::Event::Pressed(KeyCode::A) } else { crate::keys::Event::Released(KeyCode::A) }).chain(std::iter::once(crate::keys::Event::Pressed(KeyCode::F1))).collect();
+      c.burst_sizes = vec![l]; c.max_bursts = 1; c.max_calls = 3000;
+      v.push(BFamily { name: Box::leak(format!("one notification of {} events ending with the press of the uninvolved key F1", l).into_boxed_str()), layout: l_plain(), cfg: c });
+    }
+    v
+  };
   let cap = ctx.tier.pick(40_000_000u64, 2_000_000_000u64);
   let mut total = BAgg::default(); let mut per_family: Vec<Value> = vec![]; let mut viols: Vec<Violation> = vec![];
   for fam in &fams {
